@@ -63,6 +63,28 @@ def atomic_field_of(fn, term):
     return None
 
 
+def ref_sites(fb, ag):
+    """(block, local holding the biased index) for every Ref built in `ag`: directly, or by a private helper of the
+    crate that wraps its parameter into a Ref"""
+    import samesrc
+    out = []
+    for r in aggregates(ag, r"^intern::atomic_arena::Ref$"):
+        pl = op_place(r.ops[r.j["fields"].index("biased_index")])
+        out.append((r.bb, pl.local if pl is not None else None))
+    for t in ag.calls():
+        h = fb.fns.get(t.callee)
+        if h is None or h.crate != "intern" or h is ag:
+            continue
+        for r in aggregates(h, r"^intern::atomic_arena::Ref$"):
+            pl = op_place(r.ops[r.j["fields"].index("biased_index")])
+            pr = samesrc.producer(h, pl.local) if pl is not None else None
+            if pr and pr[0] == "param" and op_place(t.args[pr[1] - 1]) is not None:
+                out.append((t.bb, op_place(t.args[pr[1] - 1]).local))
+            else:
+                out.append((t.bb, None))
+    return out
+
+
 def run(cx):
     fb = cx.mir("intern")
     arena = [f for f in fb.fns.values() if f.file.endswith("atomic_arena.rs") and "::tests::" not in f.id
@@ -102,9 +124,8 @@ def run(cx):
         cx.ob("R06.rmw", ag.id + "|slot-from-fetch_add", ok,
               "the written slot is not computed from the value returned by fetch_add", ag.loc())
         # the Ref returned carries the same index
-        refs = aggregates(ag, r"^intern::atomic_arena::Ref$")
-        okr = bool(refs) and all(local_flows_from(ag, op_place(r.ops[r.j["fields"].index("biased_index")]).local,
-                                                  lambda d: d is fa[0]) is not None for r in refs)
+        refs = ref_sites(fb, ag)
+        okr = bool(refs) and all(loc_ is not None and local_flows_from(ag, loc_, lambda d: d is fa[0]) is not None for bb_, loc_ in refs)
         cx.ob("R06.rmw", ag.id + "|ref-carries-allocated-index", okr,
               "the returned Ref does not carry the index obtained from fetch_add", ag.loc())
 
@@ -193,8 +214,8 @@ def run(cx):
     # ---- R06.single-write -----------------------------------------------------------
     writes = [x for x in ag.stmts() if x.dst is not None and x.dst.proj == ("*",) and
               "MaybeUninit" in ag.local_ty(x.dst.local) and not ag.blocks[x.bb].cleanup]
-    refs = aggregates(ag, r"^intern::atomic_arena::Ref$")
-    ok = len(writes) == 1 and refs and all(ag.dominates(writes[0].bb, r.bb) for r in refs)
+    refs = ref_sites(fb, ag)
+    ok = len(writes) == 1 and refs and all(ag.dominates(writes[0].bb, bb_) for bb_, loc_ in refs)
     cx.ob("R06.single-write", ag.id + "|one-write-before-ref", bool(ok),
           "add_get must write the slot exactly once, before the Ref is constructed", ag.loc(),
           detail="writes=%d" % len(writes))
